@@ -4,6 +4,7 @@ import (
 	"crypto/sha256"
 	"encoding/hex"
 	"fmt"
+	"os"
 	"sort"
 	"strings"
 	"time"
@@ -123,8 +124,14 @@ type Trace struct {
 
 func NewTrace() *Trace { return &Trace{} }
 
+// DumpTrace (debug aid, set from VERIF_DUMPTRACE) prints every trace line to stderr.
+var DumpTrace = os.Getenv("VERIF_DUMPTRACE") != ""
+
 func (t *Trace) Add(format string, a ...any) {
 	s := fmt.Sprintf(format, a...)
+	if DumpTrace {
+		fmt.Fprintln(os.Stderr, "TRACE", s)
+	}
 	d := sha256.New()
 	d.Write(t.h[:])
 	d.Write([]byte(s))
